@@ -13,7 +13,7 @@ import ssuite
 import tape
 
 PROPS_FILE = "props/C01.v"
-MODEL_FILES = ["theories/Generate.v", "theories/CaseGen.v"]
+MODEL_FILES = ["theories/Generate.v", "theories/CaseGen.v", "theories/SatB.v", "theories/CaseSat.v"]
 EXTRA_TRUSTED = [
     "Python's random module behind the tape (range contract of randint/choice/uniform, PyRandom.v); the oracle also "
     "runs the real, seeded RNG",
@@ -149,7 +149,13 @@ def run(ctx):
     cache = {}
     samples = []
     generator = gsuite.make_generator()
-    for ssrc, s in schemas:
+    sat_terms, sat_info, tape_failures = [], [], {}
+    for si, (ssrc, s) in enumerate(schemas):
+        try:
+            sat_terms.append(f"({gsuite.world_term()}, {absn.cschema(s, absn.KeyTable())}, true)")
+            sat_info.append((si, ssrc))
+        except absn.Unmodelled:
+            pass
         sat, witness = find_conforming(r, s)
         if sat:
             sat_schemas += 1
@@ -182,6 +188,7 @@ def run(ctx):
                 if errs:
                     bad = f"fake returned {gen.vsrc(res)}, rejected: {errs[:3]}"
             if bad:
+                tape_failures.setdefault(si, (bad, list(pol.used), m))
                 if kinds is None:
                     kinds = classify(r, s, cache)
                 ex = f"S={ssrc}: {bad}"[:300]
@@ -257,6 +264,19 @@ def run(ctx):
                       {"kind": "input", "schema": ssrc, "tape": used,
                        "theorem_or_suite": "C01 correspondence: gen (theorem gen_sound is about the model's generator)"},
                       failing_input=False)
+    # the theorem's hypothesis, decided inside Coq for every schema of this run (satb, proved equivalent to sat):
+    # where it holds, NO scripted tape may make the implementation fail - no known-finding shape excuses that
+    not_sat = set(common.eval_cases(ctx.workdir, "c01sat", sat_terms, "satcase", "satcase_ok",
+                                    extra_requires="Require Import D42.PyRandom D42.RegexGen D42.Generate D42.SatB D42.CaseSat."))
+    dist["hypothesis_sat_holds"] = len(sat_terms) - len(not_sat)
+    dist["hypothesis_sat_fails"] = len(not_sat)
+    for j, (si, ssrc) in enumerate(sat_info):
+        if j not in not_sat and si in tape_failures:
+            bad_, used_, mode_ = tape_failures[si]
+            ctx.violation("a schema that satisfies the theorem's hypothesis (satb) fails under a scripted tape: " + bad_[:100],
+                          {"kind": "input", "schema": ssrc, "tape": used_, "mode": mode_, "observed": bad_,
+                           "expected": "gen_validates_decidable: satb w s = true -> every tape gives an accepted value",
+                           "theorem_or_suite": "C01 theorem instance (gen_validates_decidable)"})
     ctx.coverage.update(
         evaluations=runs + dist["real_rng_runs"],
         distinct_nontrivial=len(set(terms)),
